@@ -31,7 +31,7 @@ TRUSTED = [
 
 K_DIE, K_NET = 10e-12, 1e-12
 
-KINDS = ["netlist", "die", "alloc", "sat", "strop"]  # "legal" joins when harness/legal_common.py exists (see run_legal)
+KINDS = ["netlist", "die", "alloc", "sat", "strop", "legal"]
 
 
 # ------------------------------------------------------------------ design generators (pure data)
@@ -39,12 +39,18 @@ def fmt(x: float) -> str:
     return repr(float(x))
 
 
-def gen_netlist(rng: random.Random, s: float, defect: bool, L: int = 10) -> dict:
+def gen_netlist(rng: random.Random, s: float, defect: bool, L: int = 10, terminals: bool = True,
+                soft_rects: bool = False) -> dict:
     """netlist text at scale s; soft modules + hard STOG modules (+ a fixed one); coordinates on a 1/L lattice."""
     mods = []
     nsoft = rng.randint(1, 3)
     for i in range(nsoft):
         a = rng.choice([1, 2, 4, 2.5, 0.25]) * s * s
+        if soft_rects:   # the legaliser needs a rectangle for every module
+            w, h = rng.randint(2, 2 * L) / L * s, rng.randint(2, 2 * L) / L * s
+            cx, cy = rng.randint(L, 4 * L) / L * s, rng.randint(L, 4 * L) / L * s
+            mods.append(f"  S{i}: {{area: {fmt(w * h)}, rectangles: [[{fmt(cx)}, {fmt(cy)}, {fmt(w)}, {fmt(h)}]]}}")
+            continue
         mods.append(f"  S{i}: {{area: {fmt(a)}, center: [{fmt(rng.randint(0, 4 * L) / L * s)}, {fmt(rng.randint(0, 4 * L) / L * s)}]}}")
     nhard = rng.randint(1, 2)
     rects_all = []
@@ -80,12 +86,16 @@ def gen_netlist(rng: random.Random, s: float, defect: bool, L: int = 10) -> dict
     for rs in rects_all:
         for (_, _, w, h) in rs:
             dims += [w, h]
-    soft_areas = [float(m.split("area: ")[1].split(",")[0]) for m in mods if "area: " in m]
+    soft_areas = [float(m.split("area: ")[1].split(",")[0].rstrip("}")) for m in mods if "area: " in m]
+    for m in mods:
+        if "area: " in m and "rectangles: [[" in m:
+            vals = [float(v) for v in m.split("rectangles: [[")[1].split("]]")[0].split(",")]
+            dims += [vals[2], vals[3]]
     for a in soft_areas:
         dims.append(math.sqrt(a))
     for rs in rects_all:
         dims.append(math.sqrt(sum(w * h for (_, _, w, h) in rs)))
-    for i in range(rng.choice([0, 0, 1, 2])):
+    for i in range(rng.choice([0, 0, 1, 2]) if terminals else 0):
         mods.append(f"  T{i}: {{terminal: true, center: [{fmt(rng.randint(0, 4 * L) / L * s)}, {fmt(rng.randint(0, 4 * L) / L * s)}]}}")
     names = [m.split(":")[0].strip() for m in mods]
     nets = []
@@ -148,7 +158,7 @@ def gen_strop(rng: random.Random, s: float, defect: bool, L: int = 10) -> dict:
 
 
 def gen_legal(rng: random.Random, s: float, defect: bool, L: int = 10) -> dict:
-    n = gen_netlist(rng, s, False, L)
+    n = gen_netlist(rng, s, False, L, terminals=False, soft_rects=True)   # the legaliser divides by module areas: no terminals
     n["text"] = n["text"].replace("fixed: true", "hard: true")
     return {"kind": "legal", "scale": s, "netlist": n["text"], "W": 6 * s, "H": 6 * s, "rects": n["rects"],
             "proposal": n["proposal"]}
@@ -465,7 +475,7 @@ def run(ctx: Ctx) -> None:
                  sample={"probe_kind": probe["kind"], "scale": probe["scale"], "history": [(h["kind"], h["scale"]) for h in hist],
                          "fresh_digest": fresh_dig[:160]})
         ctx.count("probe:" + probe["kind"])
-        ctx.count("verdict:" + json.loads(fresh_dig)[0])
+        ctx.count("verdict:" + str(json.loads(fresh_dig)[0])[:12])
         same, exact = digests_equal(fresh_dig, hist_dig)
         # tolerance interval spanned by the proposals (history + probe)
         vals = [v for v in (proposal_value(p) for p in hist_props) if v is not None and v > 0]
